@@ -94,10 +94,10 @@ def primWriter (env : Env) (fn : String) : Option (Value → Except Err Bytes) :
 def step (st : St) (line : String) : St × String :=
   match (line.trimAscii.toString.splitOn " ").filter (· ≠ "") with
   | ["hello"] => (st, s!"ok {st.classes.size} {Kio.Generated.digest}")
-  | ["cfg", a, b, c, d] =>
+  | ["cfg", a, b, c, d, e] =>
     let env := { st.env with
       time := { tdExact := a = "1", dtExact := b = "1", dtMillis := c = "1" },
-      skipUnknownTags := d = "1" }
+      skipUnknownTags := d = "1", nullableTaggedReader := e = "1" }
     ({ st with env := env }, "ok")
   | ["prim", fn, hex] =>
     match primReader st.env fn, bytesOfHex hex with
